@@ -3,8 +3,10 @@ CONSTANTS
   Trees <- SimTreesOk
   MaxConns <- MC123
   MayFail = FALSE
-  CancelTail = FALSE
+  CancelTail = TRUE
+  AwaitCancelled = TRUE
   ValidateUpFront = FALSE
+
 INVARIANT ConnLimit
 INVARIANT Sequential
 INVARIANT SuccessComplete
